@@ -2069,8 +2069,19 @@ fn run(v: &Value) -> Result<String, String> {
                 res?;
                 cases += 1;
             }
-            // a default-configured server caps at the documented default (16): of 20 concurrent blocking requests exactly 16 run, 4 are refused at once
-            {
+            // configuration corners of the cap: what the builder was given is what the connection enforces
+            //   default                         -> 16          (20 requests: 16 run, 4 refused)
+            //   unlimited, outbound capacity 2   -> no cap     (5 requests: all 5 run; the cap is not the outbound queue's size)
+            //   cap 2, outbound capacity 2       -> 2          (4 requests: 2 run, 2 refused; a cap >= the outbound capacity is still a cap)
+            //   cap 3, outbound capacity 1       -> 3          (5 requests: 3 run, 2 refused)
+            type Build = fn(WebSocketServer) -> WebSocketServer;
+            let corners: [(&str, Build, u64, usize, usize); 4] = [
+                ("default configuration (documented default cap 16)", |s| s, 20, 16, 4),
+                ("with_offreader_limit(0) (unlimited) and with_outbound_capacity(2)", |s| s.with_offreader_limit(0).with_outbound_capacity(2), 5, 5, 0),
+                ("with_offreader_limit(2) and with_outbound_capacity(2)", |s| s.with_offreader_limit(2).with_outbound_capacity(2), 4, 2, 2),
+                ("with_outbound_capacity(1) then with_offreader_limit(3)", |s| s.with_outbound_capacity(1).with_offreader_limit(3), 5, 3, 2),
+            ];
+            for (cname, build, nreq, want_run, want_rej) in corners {
                 let running = Arc::new(AtomicUsize::new(0));
                 let gate = Arc::new(Gate { released: Mutex::new(HashMap::new()), cv: Condvar::new() });
                 let (r2, g2) = (running.clone(), gate.clone());
@@ -2086,12 +2097,12 @@ fn run(v: &Value) -> Result<String, String> {
                 let res: Result<(), String> = rt.block_on(async {
                     let listener = tokio::net::TcpListener::bind(("127.0.0.1", 0)).await.map_err(|e| e.to_string())?;
                     let addr = listener.local_addr().unwrap();
-                    let shared = WebSocketServer::new(router).into_shared();
+                    let shared = build(WebSocketServer::new(router)).into_shared();
                     let server_task = tokio::spawn(async move { loop { let Ok((stream, _)) = listener.accept().await else { break }; let shared = shared.clone(); tokio::spawn(async move { if let Ok(ws) = WebSocketServer::accept(stream, "/repe").await { let _ = shared.serve_connection(ws).await; } }); } });
                     let client = WebSocketClient::connect(&format!("ws://{addr}/repe")).await.map_err(|e| e.to_string())?;
                     let refused = Arc::new(AtomicUsize::new(0));
                     let mut hs = Vec::new();
-                    for k in 0..20u64 {
+                    for k in 0..nreq {
                         let c = client.clone();
                         let rf = refused.clone();
                         hs.push(tokio::spawn(async move {
@@ -2101,16 +2112,16 @@ fn run(v: &Value) -> Result<String, String> {
                         }));
                     }
                     let t0 = std::time::Instant::now();
-                    while running.load(Ordering::SeqCst) + refused.load(Ordering::SeqCst) < 20 && t0.elapsed() < Duration::from_secs(10) {
+                    while running.load(Ordering::SeqCst) + refused.load(Ordering::SeqCst) < nreq as usize && t0.elapsed() < Duration::from_secs(10) {
                         tokio::time::sleep(Duration::from_millis(5)).await;
                     }
                     tokio::time::sleep(Duration::from_millis(100)).await;
                     let (ran, rej) = (running.load(Ordering::SeqCst), refused.load(Ordering::SeqCst));
-                    for k in 0..20u64 { gate.released.lock().unwrap().insert(k, true); } gate.cv.notify_all();
+                    for k in 0..nreq { gate.released.lock().unwrap().insert(k, true); } gate.cv.notify_all();
                     for h in hs { let _ = tokio::time::timeout(Duration::from_secs(5), h).await; }
                     drop(client); server_task.abort();
-                    if ran > 16 { return Err(format!("default configuration: {ran} off-reader handlers ran at once; the documented default cap is 16")); }
-                    if ran + rej == 20 && (ran, rej) != (16, 4) { return Err(format!("default configuration: of 20 concurrent blocking requests {ran} ran and {rej} were refused with ResourceExhausted; expected 16 and 4")); }
+                    if want_rej > 0 && ran > want_run { return Err(format!("{cname}: {ran} off-reader handlers ran at once; the configured cap is {want_run}")); }
+                    if ran + rej == nreq as usize && (ran, rej) != (want_run, want_rej) { return Err(format!("{cname}: of {nreq} concurrent blocking requests {ran} ran and {rej} were refused with ResourceExhausted; expected {want_run} and {want_rej}")); }
                     Ok(())
                 });
                 res?;
